@@ -246,67 +246,87 @@ func runC15(r *ev.Run) {
 		size int
 		ops  []int
 	}
-	for _, size := range []int{32, 64} {
-		seen := map[[2]uint64]bool{}
-		var mu sync.Mutex
-		frontier := []node{{size: size}}
-		seen[[2]uint64{uint64(size), c15Run(size, nil).digest}] = true
-		for depth := 1; depth <= maxLen && len(frontier) > 0 && !r.Expired(); depth++ {
-			var next []node
-			ev.Parallel(len(frontier), func(worker, item int) {
-				if r.Expired() {
-					return
-				}
-				nd := frontier[item]
-				ops := make([]c15Op, len(nd.ops)+1)
-				for i, ix := range nd.ops {
-					ops[i] = alphabet[ix]
-				}
-				var local []node
-				for ai, op := range alphabet {
-					ops[len(nd.ops)] = op
-					transitions.Add(1)
-					res := c15Run(nd.size, ops)
-					if res.class != "" {
-						cp := append([]c15Op(nil), ops...)
-						r.Fail(res.class, c15Case{Size: nd.size, Ops: cp}, "table of %d bytes, %d ops: %s", nd.size, len(cp), res.msg)
-						continue
+	bfs := func(sizes []int, alphabet []c15Op, maxLen int) (closed bool) {
+		closed = true
+		for _, size := range sizes {
+			seen := map[[2]uint64]bool{}
+			var mu sync.Mutex
+			frontier := []node{{size: size}}
+			seen[[2]uint64{uint64(size), c15Run(size, nil).digest}] = true
+			for depth := 1; depth <= maxLen && len(frontier) > 0 && !r.Expired(); depth++ {
+				var next []node
+				ev.Parallel(len(frontier), func(worker, item int) {
+					if r.Expired() {
+						return
 					}
-					evictions.Add(int64(res.evictions))
-					hits.Add(int64(res.hits))
-					cur := nd.size
-					for _, o := range ops {
-						if o.Kind == "resize" || o.Kind == "resize-raw" {
-							cur = o.Size
+					nd := frontier[item]
+					ops := make([]c15Op, len(nd.ops)+1)
+					for i, ix := range nd.ops {
+						ops[i] = alphabet[ix]
+					}
+					var local []node
+					for ai, op := range alphabet {
+						ops[len(nd.ops)] = op
+						transitions.Add(1)
+						res := c15Run(nd.size, ops)
+						if res.class != "" {
+							cp := append([]c15Op(nil), ops...)
+							r.Fail(res.class, c15Case{Size: nd.size, Ops: cp}, "table of %d bytes, %d ops: %s", nd.size, len(cp), res.msg)
+							continue
+						}
+						evictions.Add(int64(res.evictions))
+						hits.Add(int64(res.hits))
+						cur := nd.size
+						for _, o := range ops {
+							if o.Kind == "resize" || o.Kind == "resize-raw" {
+								cur = o.Size
+							}
+						}
+						key := [2]uint64{uint64(cur), res.digest}
+						mu.Lock()
+						dup := seen[key]
+						if !dup {
+							seen[key] = true
+						}
+						mu.Unlock()
+						if !dup {
+							seq := append(append([]int(nil), nd.ops...), ai)
+							local = append(local, node{nd.size, seq})
 						}
 					}
-					key := [2]uint64{uint64(cur), res.digest}
 					mu.Lock()
-					dup := seen[key]
-					if !dup {
-						seen[key] = true
-					}
+					next = append(next, local...)
 					mu.Unlock()
-					if !dup {
-						seq := append(append([]int(nil), nd.ops...), ai)
-						local = append(local, node{nd.size, seq})
+				})
+				frontier = next
+				if depth == maxLen && len(next) > 0 {
+					closed = false
+				}
+				if depth == 2 && len(next) > 0 {
+					var sample []c15Op
+					for _, ix := range next[len(next)/2].ops {
+						sample = append(sample, alphabet[ix])
 					}
+					r.Sample(map[string]any{"initial_size": size, "ops": sample})
 				}
-				mu.Lock()
-				next = append(next, local...)
-				mu.Unlock()
-			})
-			frontier = next
-			if depth == 2 && len(next) > 0 {
-				var sample []c15Op
-				for _, ix := range next[len(next)/2].ops {
-					sample = append(sample, alphabet[ix])
-				}
-				r.Sample(map[string]any{"initial_size": size, "ops": sample})
 			}
+			states.Add(int64(len(seen)))
 		}
-		states.Add(int64(len(seen)))
+		return closed
 	}
+	bfs([]int{32, 64}, alphabet, maxLen)
+	// the same search, run to its fix-point (no new table state) on a one-bucket table over a reduced alphabet: five keys of
+	// one bucket with distinct signatures and the key whose signature is all zero ("empty"), two parameter sets each -
+	// long histories in which a zero-signature entry sits below, between or above live entries
+	var small []c15Op
+	for _, ki := range []int{0, 1, 2, 3, 4, 7} {
+		for _, pi := range []int{0, 2, 3} {
+			st := c15Params[pi]
+			st.Key = c15Keys[ki]
+			small = append(small, c15Op{Kind: "insert", Store: st})
+		}
+	}
+	r.Set("one_bucket_fixpoint_reached", bfs([]int{32}, small, ev.Pick(r, 12, 40)))
 	r.Set("sequence_length", maxLen)
 	r.Set("alphabet_size", len(alphabet))
 
